@@ -210,6 +210,24 @@ pub fn run(e: &Engine) {
         |b| json!({"bytes": hex(b)}),
         |b, rec| check_bytes(b, rec),
     );
+    // long inputs: lengths around 2^16, 2^24 (and a few in between), supported versions, varied footers
+    let lens: Vec<usize> = [65_530usize, 65_535, 65_536, 65_537, 65_538, 65_539, 65_540, 131_072, 1 << 20, (1 << 24) - 1, 1 << 24, (1 << 24) + 1, (1 << 24) + 4].to_vec();
+    let long_cases: Vec<(usize, u64)> = lens.iter().flat_map(|&l| (0..6u64).map(move |v| (l, v))).collect();
+    e.run_list("long-inputs-around-2^16-and-2^24", &long_cases, |(l, v)| json!({"long_len": l, "variant": v}), |(l, v), rec| {
+        let mut b: Vec<u8> = (0..*l).map(|i| crate::engine::mix(seed ^ *v, i as u64 / 3) as u8).collect();
+        let version = 1 + (*v % 3);
+        b[..8].copy_from_slice(&version.to_le_bytes());
+        let end = if version >= 3 { *l - 4 } else { *l };
+        let root: u64 = match *v {
+            0 | 1 | 2 => (end - 17) as u64,
+            3 => 0,
+            4 => u64::MAX - 3,
+            _ => (*l as u64) + 5,
+        };
+        b[end - 8..end].copy_from_slice(&root.to_le_bytes());
+        b[end - 16..end - 8].copy_from_slice(&(*l as u64 * 3).to_le_bytes());
+        check_bytes(&b, rec)
+    });
     // (3) every truncation and every single-byte mutation of valid files
     let mut files: Vec<Vec<u8>> = vec![];
     for inp in [
@@ -271,7 +289,7 @@ pub fn replay(_sub: &str, case: &Value) -> Option<CheckResult> {
     Some(crate::engine::guarded(|| {
         if let Some(b) = case.get("bytes") {
             check_bytes(&unhex(b.as_str().ok_or_else(bad)?).ok_or_else(bad)?, &mut rec)
-        } else if case.get("lint").is_some() {
+        } else if case.get("lint").is_some() || case.get("long_len").is_some() {
             Ok(())
         } else {
             check_mut(&MutCase::from_json(case).ok_or_else(bad)?, &mut rec)
